@@ -228,7 +228,7 @@ def layer_case(depth, planetary, fmt, parallel, part):
                     return
 
 
-def pyramid_route(depth, planetary, part):
+def pyramid_route(depth, planetary, part, variant="plain"):
     """Tiles handed out by a Pyramid traversal (what the samplers receive): a pyramid made for one coordinate
     system, traversed AFTER a second pyramid was made for the other one, still delivers its own system's
     tiles - all 65 536 pixel centres of each compared."""
@@ -236,13 +236,25 @@ def pyramid_route(depth, planetary, part):
     from toasty.pyramid import Pyramid
 
     csn = "planetary" if planetary else "astronomical"
-    first = Pyramid.new_toast(depth, coordsys=cs_of(planetary))
+    if variant == "filtered":
+        # a filtered pyramid (here the filter accepts three of the four quadrants)
+        first = Pyramid.new_toast_filtered(depth, lambda t: (t.pos.n, t.pos.x >> (t.pos.n - 1), t.pos.y >> (t.pos.n - 1)) != (1, 0, 1), coordsys=cs_of(planetary))
+    elif variant == "subpyramid":
+        # restricted to a sub-pyramid whose apex is two levels down
+        from toasty.pyramid import Pos
+
+        first = Pyramid.new_toast(depth, coordsys=cs_of(planetary))
+        first.subpyramid(Pos(2, 1, 2))
+    else:
+        first = Pyramid.new_toast(depth, coordsys=cs_of(planetary))
     Pyramid.new_toast(depth, coordsys=cs_of(not planetary))
     got = []
     first.visit_leaves(lambda pos, tile: got.append((tuple(pos), tile)), parallel=1)
+    if not got:
+        part.violation("pyramid-route/no-tiles/%s" % variant, "the %s %s pyramid of depth %d delivered no leaf" % (variant, csn, depth), {"pos": (depth, 0, 0), "coordsys": csn, "pyramid_route": True, "variant": variant})
     for pos, tile in got:
         part.case(nontrivial=True)
-        cfg = {"pos": pos, "coordsys": csn, "pyramid_route": True}
+        cfg = {"pos": pos, "coordsys": csn, "pyramid_route": True, "variant": variant}
         lon, lat = toast.toast_tile_get_coords(tile)
         ref = tg.pixel_grid(pos[0], pos[1], pos[2], planetary)
         dmax = tg.angdist(tg.vec(lon, lat), ref).max()
@@ -255,7 +267,7 @@ def pyramid_route(depth, planetary, part):
 def _c05job(j):
     if j[0] == "pyramid-route":
         p = Part()
-        pyramid_route(j[1], j[2], p)
+        pyramid_route(j[1], j[2], p, j[3] if len(j) > 3 else "plain")
         return p
     if j[0] == "layer":
         p = Part()
@@ -298,6 +310,8 @@ def run(tier, seed):
     jobs.append(("depth0",))
     for planetary in (False, True):
         jobs.append(("pyramid-route", 1 if tier == "quick" else 2, planetary))
+        jobs.append(("pyramid-route", 2, planetary, "filtered"))
+        jobs.append(("pyramid-route", 3, planetary, "subpyramid"))
     for depth in (1, 2) if tier == "quick" else (0, 1, 2, 3):
         for planetary in (False, True):
             for fmt in ("npy", "fits"):
@@ -313,7 +327,7 @@ def replay(payload):
     r = payload["replay"]
     if r.get("pyramid_route"):
         p = Part()
-        pyramid_route(r["pos"][0], r["coordsys"] == "planetary", p)
+        pyramid_route(r["pos"][0], r["coordsys"] == "planetary", p, r.get("variant", "plain"))
     elif r.get("layer"):
         p = Part()
         layer_case(r["pos"][0], r["coordsys"] == "planetary", r["format"], r["parallel"], p)
